@@ -1,5 +1,13 @@
-"""`re` on symbolic strings: translation of a Python pattern (re._parser tree) to a solver regular expression."""
+"""`re` on symbolic strings: translation of a Python pattern (re._parser tree) to a solver regular expression.
+
+Structure (concatenation, alternation, repetition, groups, anchors at the ends) is translated from the parse tree.
+Every single-character matcher (literal, class, `.`, category) is translated *by exhaustive native enumeration*: the item is
+compiled on its own by CPython's `re` with the pattern's flags and tried on every code point of the solver's alphabet
+(U+0000..U+2FFFF), so IGNORECASE fix-ups, Unicode categories etc. are exactly CPython's.
+"""
+import functools
 import re
+import re._compiler as scomp
 import re._constants as sc
 import re._parser as sp
 
@@ -13,28 +21,52 @@ NOTIMPL = NotImplemented
 S = z3.ReSort(z3.StringSort())
 ANY = z3.AllChar(S)
 NL = z3.Re("\n")
+MAXCP = 0x2FFFF  # z3's character sort
+SINGLE = (sc.LITERAL, sc.NOT_LITERAL, sc.ANY, sc.IN)
 
 
-def _cls_item(op, av):
-    if op == sc.LITERAL:
-        return z3.Re(chr(av))
-    if op == sc.RANGE:
-        return z3.Range(chr(av[0]), chr(av[1]))
-    if op == sc.CATEGORY:
-        if av == sc.CATEGORY_DIGIT:
-            note("re \\d", "\\d is translated as ASCII [0-9] (Unicode digits of str patterns are not modelled)")
-            return z3.Range("0", "9")
-        if av == sc.CATEGORY_SPACE:
-            return z3.Union(*[z3.Re(c) for c in " \t\n\r\f\v"])
-    raise Unsupported(f"regex class item {op} {av}")
+def ranges_to_re(ranges):
+    if not ranges:
+        return z3.Empty(S)
+    parts = [z3.Re(chr(a)) if a == b else z3.Range(chr(a), chr(b)) for a, b in ranges]
+    return parts[0] if len(parts) == 1 else z3.Union(*parts)
 
 
-def _seq(items, info, top=False):
+@functools.lru_cache(maxsize=None)
+def _single_ranges(item_repr, flags):
+    op, av = eval(item_repr, {"__builtins__": {}}, vars(sc))
+    st = sp.State()
+    st.flags = flags
+    cp = scomp.compile(sp.SubPattern(st, [(op, av)]), flags)
+    fm = cp.fullmatch
+    out, start, prev = [], None, None
+    for c in range(MAXCP + 1):
+        if fm(chr(c)):
+            if start is None:
+                start = c
+            prev = c
+        elif start is not None:
+            out.append((start, prev))
+            start = None
+    if start is not None:
+        out.append((start, prev))
+    return tuple(out)
+
+
+def single_char_re(op, av, flags):
+    note("re character classes", "each single-character matcher is the exact set CPython's re accepts, enumerated over U+0000..U+2FFFF (z3's alphabet) with the pattern's flags, "
+         "under the prover's CPython (3.11, Unicode 14); code points above U+2FFFF are outside the string model")
+    return ranges_to_re(_single_ranges(repr((op, av)), flags))
+
+
+def _seq(items, info, flags, top=False):
     parts = []
     n = len(items)
     for i, (op, av) in enumerate(items):
         if op == sc.AT:
-            if top and av == sc.AT_BEGINNING and i == 0:
+            if flags & re.MULTILINE:
+                raise Unsupported("regex anchors under re.MULTILINE")
+            if top and av == sc.AT_BEGINNING and i == 0 or top and av == sc.AT_BEGINNING_STRING and i == 0:
                 info["bol"] = True
                 continue
             if top and av == sc.AT_END and i == n - 1:
@@ -44,28 +76,20 @@ def _seq(items, info, top=False):
                 info["end"] = "Z"
                 continue
             raise Unsupported("regex anchor not at the ends of the pattern")
-        if op == sc.LITERAL:
-            parts.append(z3.Re(chr(av)))
-        elif op == sc.NOT_LITERAL:
-            parts.append(z3.Diff(ANY, z3.Re(chr(av))))
-        elif op == sc.ANY:
-            parts.append(z3.Diff(ANY, NL))
-        elif op == sc.IN:
-            neg = bool(av) and av[0][0] == sc.NEGATE
-            its = [_cls_item(o, a) for o, a in (av[1:] if neg else av)]
-            u = its[0] if len(its) == 1 else z3.Union(*its)
-            parts.append(z3.Diff(ANY, u) if neg else u)
+        if op in SINGLE:
+            parts.append(single_char_re(op, av, flags))
         elif op in (sc.MAX_REPEAT, sc.MIN_REPEAT):
             lo, hi, sub = av
-            r = _seq(list(sub), {})
+            r = _seq(list(sub), {}, flags)
             if hi == sc.MAXREPEAT:
                 parts.append(z3.Star(r) if lo == 0 else z3.Plus(r) if lo == 1 else z3.Concat(*([r] * lo + [z3.Star(r)])))
             else:
                 parts.append(z3.Loop(r, lo, hi))
         elif op == sc.SUBPATTERN:
-            parts.append(_seq(list(av[3]), {}))
+            add, dele = av[1], av[2]
+            parts.append(_seq(list(av[3]), {}, (flags | add) & ~dele))
         elif op == sc.BRANCH:
-            parts.append(z3.Union(*[_seq(list(b), {}) for b in av[1]]))
+            parts.append(z3.Union(*[_seq(list(b), {}, flags) for b in av[1]]))
         else:
             raise Unsupported(f"regex construct {op}")
     if not parts:
@@ -75,11 +99,13 @@ def _seq(items, info, top=False):
 
 def language(pattern: str, how: str, flags=0):
     """Regular expression of the set of strings s with re.<how>(pattern, s) is not None."""
-    if flags:
-        raise Unsupported("regex flags")
+    if isinstance(pattern, bytes):
+        raise Unsupported("bytes pattern")
     note("re semantics", "match anchors the start only, fullmatch both ends, search none; '$' = end of string or before one trailing newline; '\\Z' = end of string")
     info = {}
-    body = _seq(list(sp.parse(pattern)), info, top=True)
+    parsed = sp.parse(pattern, flags)
+    flags = parsed.state.flags
+    body = _seq(list(parsed), info, flags, top=True)
     if how == "fullmatch" or info.get("end") == "Z":
         tail = z3.Re("")
     elif info.get("end") == "$":
@@ -102,12 +128,20 @@ def install(it):
         name = getattr(fn, "__name__", "")
         if isinstance(slf, re.Pattern) and name in ("match", "fullmatch", "search") and args and isinstance(it.unbase(args[0]), SStr):
             s = it.unbase(args[0])
-            ok = it.branch(z3.InRe(s.t, language(slf.pattern, name, slf.flags & ~re.UNICODE)))
+            ok = it.branch(z3.InRe(s.t, language(slf.pattern, name, slf.flags)))
             return MatchStub() if ok else None
         if fn in (re.match, re.fullmatch, re.search) and len(args) >= 2 and isinstance(it.unbase(args[1]), SStr) and isinstance(args[0], (str, re.Pattern)):
             pat = args[0].pattern if isinstance(args[0], re.Pattern) else args[0]
-            ok = it.branch(z3.InRe(it.unbase(args[1]).t, language(pat, fn.__name__)))
+            fl = (args[0].flags if isinstance(args[0], re.Pattern) else 0) | (args[2] if len(args) > 2 else kwargs.get("flags", 0))
+            ok = it.branch(z3.InRe(it.unbase(args[1]).t, language(pat, fn.__name__, fl)))
             return MatchStub() if ok else None
+        from ..values import PObj
+
+        subject = args[0] if isinstance(slf, re.Pattern) and name in ("match", "fullmatch", "search", "findall", "sub", "split") and args else args[1] if fn in (re.match, re.fullmatch, re.search, re.findall) and len(args) >= 2 else "ok"
+        if subject is None or isinstance(subject, PObj) and not subject.has_base:
+            from ..errors import PyRaise
+
+            raise PyRaise(TypeError(f"expected string or bytes-like object, got '{it.type_name(subject)}'"))
         return _orig(fn, args, kwargs)
 
     it.call_native = call_native
